@@ -235,12 +235,10 @@ theorem RInv.step {cfg : Cfg} {s s' : State} {t : Tid} {a : Act} (hx : XInv s) (
     simp only at h
     split at h
     · cases h
-      obtain ⟨res, hh, hthr, _⟩ := pairCall_thr_hist cfg s t r A B a b
+      obtain ⟨res, hh, _, _⟩ := pairCall_thr_hist cfg s t r A B a b
       have hruns : ∀ p, runsOf (pairCall cfg s t r A B a b).hist p = runsOf s.hist p := by
         intro p; rw [hh]; exact runsOf_nonrun _ (fun _ => rfl) p
-      rcases hthr with e | e
-      · exact hr.local t (s.thr t) (by rw [e, upd_self]) hruns (pairCall_npend ..) (fun p hp => hp)
-      · exact hr.local t [.dead] e hruns (pairCall_npend ..) hdead
+      exact hr.local t (s.thr t) (by rw [pairCall_thr, upd_self]) hruns (pairCall_npend ..) (fun p hp => hp)
     · cases h
   | callExcl o tp path =>
     simp only at h
@@ -258,10 +256,8 @@ theorem RInv.step {cfg : Cfg} {s s' : State} {t : Tid} {a : Act} (hx : XInv s) (
         cases s.cache (r, tp) with
         | some v =>
           simp only
-          split
-          · exact hr.local t [.dead] rfl (fun p => runsOf_nonrun _ (fun _ => rfl) p) rfl hdead
-          · exact hr.local t _ (retExc_thr ..) (fun p => runs_retExc _ _ _ _ _ _ _ p) (retExc_npend ..)
-              (fun p hp => preRun_deliverStack _ _ _ hp)
+          exact hr.local t _ (retExc_thr ..) (fun p => runs_retExc _ _ _ _ _ _ _ p) (retExc_npend ..)
+            (fun p hp => preRun_deliverStack _ _ _ hp)
         | none =>
           simp only
           cases s.wip (r, tp) with
@@ -421,12 +417,10 @@ theorem RInv.step {cfg : Cfg} {s s' : State} {t : Tid} {a : Act} (hx : XInv s) (
         intro res' q hq; rw [e]; exact preRun_tail _ _ _ (preRun_deliverStack _ _ _ hq)
       split at h
       · split at h
-        · split at h
-          · cases h; exact hr.local t [.dead] rfl (fun p => runsOf_nonrun _ (fun _ => rfl) p) rfl hdead
-          · cases h; exact hr.local t _ (retExc_thr ..) (fun p => runs_retExc _ _ _ _ _ _ _ p) (retExc_npend ..) (hsub _)
+        · cases h; exact hr.local t _ (retExc_thr ..) (fun p => runs_retExc _ _ _ _ _ _ _ p) (retExc_npend ..) (hsub _)
         · cases h; exact hr.local t _ (retExc_thr ..) (fun p => runs_retExc _ _ _ _ _ _ _ p) (retExc_npend ..) (hsub _)
         · cases h
-        · cases h; exact hr.local t [.dead] rfl (fun p => runsOf_nonrun _ (fun _ => rfl) p) rfl hdead
+        · cases h; exact hr.local t _ (retExc_thr ..) (fun p => runs_retExc _ _ _ _ _ _ _ p) (retExc_npend ..) (hsub _)
       · cases h
     · cases h
 
